@@ -106,10 +106,37 @@ class BitEval:
     def __init__(self, env):
         self.env = env          # leaf expr -> vector
 
+    def bytes_of(self, e):
+        """[u8; 8]-valued expression -> list of eight 8-bit vectors (element k = bits 8k..8k+7 for the little-endian
+        split of a word)"""
+        k = e[0]
+        if k == "call":
+            tail = e[1].rsplit("::", 1)[-1]
+            if tail in ("to_le_bytes", "to_be_bytes") and len(e[2]) == 1:
+                a = self.vec(e[2][0])
+                if len(a) != 64:
+                    raise CannotBit("byte split of a %d-bit value" % len(a))
+                bs = [a[8 * i:8 * i + 8] for i in range(8)]
+                return bs if tail == "to_le_bytes" else bs[::-1]
+        if k == "with" and e[2][0] == "i" and e[2][1][0] == "int":
+            bs = list(self.bytes_of(e[1]))
+            i = e[2][1][1]
+            v = self.vec(e[3])
+            if not (0 <= i < len(bs)) or len(v) != 8:
+                raise CannotBit("byte array update out of range")
+            bs[i] = v
+            return bs
+        raise CannotBit("cannot evaluate byte array %s" % (str(e)[:80]))
+
     def vec(self, e):
         if e in self.env:
             return self.env[e]
         k = e[0]
+        if k == "index" and e[2][0] == "int":
+            bs = self.bytes_of(e[1])
+            if not 0 <= e[2][1] < len(bs):
+                raise CannotBit("byte index out of range")
+            return bs[e[2][1]]
         if k == "int":
             return vec_const(e[1] & M64)
         if k == "bbconst":
@@ -142,10 +169,17 @@ class BitEval:
             tail = e[1].rsplit("::", 1)[-1]
             if tail == "swap_bytes":
                 a = self.vec(e[2][0])
+                if len(a) != 64:
+                    raise CannotBit("swap_bytes of a %d-bit value" % len(a))
                 return [a[i ^ 56] for i in range(64)]
             if tail == "reverse_bits":
                 a = self.vec(e[2][0])
-                return [a[63 - i] for i in range(64)]
+                return a[::-1]
+            if tail in ("from_le_bytes", "from_be_bytes") and len(e[2]) == 1:
+                bs = self.bytes_of(e[2][0])
+                if tail == "from_be_bytes":
+                    bs = bs[::-1]
+                return [x for b_ in bs for x in b_]
             if tail in ("wrapping_sub", "wrapping_add") and len(e[2]) == 2:
                 return self.addsub("Sub" if tail == "wrapping_sub" else "Add", self.vec(e[2][0]), self.vec(e[2][1]))
         raise CannotBit("cannot bit-evaluate %s" % (str(e)[:80]))
